@@ -29,10 +29,10 @@ META = {
                    "validity and confinement clauses, per flag set",
 }
 
-REFS = {
-    "s2": cont(("ref", [(0, 4, "x"), (6, 9, "y")])),
-    "s3": cont(("ref", [(1, 3, "x"), (1, 3, "y"), (5, 10, "x")])),  # two units on the same segment
-    "t2": cont(("alpha", [(2, 5, "p"), (7, 8, "q")]), ("beta", [(0, 1, "r")])),  # 2 annotators: first is the reference
+REFS = {  # labels of unequal length on purpose (fixed-width string arrays would truncate the longer ones)
+    "s2": cont(("ref", [(0, 4, "x"), (6, 9, "speech_overlap")])),
+    "s3": cont(("ref", [(1, 3, "x"), (1, 3, "yy_long"), (5, 10, "x")])),  # two units on the same segment
+    "t2": cont(("alpha", [(2, 5, "p"), (7, 8, "qq")]), ("beta", [(0, 1, "rrr")])),  # 2 annotators: first is the reference
 }
 FLAGS = ("shift", "false_pos", "false_neg", "cat_shuffle", "split")
 OPS = {"shift": "shift_shuffle", "false_pos": "false_pos_shuffle", "false_neg": "false_neg_shuffle",
